@@ -225,6 +225,38 @@ func c05Tasks(repo string, seed int64, tier string) []c05task {
 			ts = append(ts, c05task{"goal", quoteAtom(p.name) + "(" + strings.Join(as, ", ") + ") .", key, nil})
 		}
 	}
+	// sizes: every argument position of every predicate of arity 1-3 once with each of a few integers whose
+	// product with a small element size wraps around 64 bits (k*2^60+j) or 32 bits, the other arguments
+	// unbound, an atom or a partial list: what allocation-size arithmetic has to survive
+	sizes := []string{"1152921504606846976", "1152921504606846979", "2305843009213693952", "3458764513820540936", "4611686018427387904", "4294967296", "8070450532247928839"}
+	others := []string{"_", "foo", "[a,b|T]"}
+	for _, p := range preds {
+		key := fmt.Sprintf("%s/%d", p.name, p.arity)
+		if p.arity < 1 || p.arity > 3 || c05Excluded[key] {
+			continue
+		}
+		for pos := 0; pos < p.arity; pos++ {
+			for _, sz := range sizes {
+				total := 1
+				for a := 1; a < p.arity; a++ {
+					total *= len(others)
+				}
+				for c := 0; c < total; c++ {
+					code := c
+					var as []string
+					for a := 0; a < p.arity; a++ {
+						if a == pos {
+							as = append(as, sz)
+							continue
+						}
+						as = append(as, others[code%len(others)])
+						code /= len(others)
+					}
+					ts = append(ts, c05task{"goal", quoteAtom(p.name) + "(" + strings.Join(as, ", ") + ") .", key, nil})
+				}
+			}
+		}
+	}
 	// arithmetic: every evaluable functor on operand shapes, under is/2 and the comparison predicates
 	operands := []string{"0", "1", "-1", "2", "7", "9223372036854775807", "-9223372036854775808", "1.5", "-0.0", "1.0e308", "foo", "_", "(1+1)", "63", "64", "-64"}
 	unary := []string{"+", "-", "\\", "abs", "acos", "asin", "atan", "ceiling", "cos", "exp", "float", "float_fractional_part", "float_integer_part", "floor", "log", "round", "sign", "sin", "sqrt", "tan", "truncate", "nosuch"}
@@ -534,7 +566,7 @@ func runC05(outDir string, seed int64, tier string, repo string) {
 	for i := 0; i < len(ts) && len(sum.Samples) < 10; i += len(ts)/10 + 1 {
 		sum.Samples = append(sum.Samples, ts[i].kind+": "+ts[i].text)
 	}
-	sum.Rule = "every predicate registered in interpreter.go or defined by bootstrap.pl (read from the sources of this run; halt/0,1 excluded) x argument shapes (unbound, atoms, [] , integers incl. both 64-bit extremes, floats, compounds, pairs, indicators, proper/partial/improper lists, string, stream alias and stream term, nested callables, {}): all shapes for arity 1, all pairs for arity 2 (quick: 330 sampled pairs per predicate), sampled tuples above; every string over a 31-symbol alphabet of significant bytes up to length 2, sampled longer ones (thorough: all of length 3), every truncation and random one-byte mutations of four valid texts, each as query text and as program text; every task in a fresh interpreter inside an isolated worker process with a memory limit, a step budget and a 15 s watchdog; non-trivial = the task does something other than fail or be rejected"
+	sum.Rule = "every predicate registered in interpreter.go or defined by bootstrap.pl (read from the sources of this run; halt/0,1 excluded) x argument shapes (unbound, atoms, [] , integers incl. both 64-bit extremes, floats, compounds, pairs, indicators, proper/partial/improper lists, string, stream alias and stream term, nested callables, {}): all shapes for arity 1, all pairs for arity 2 (quick: 330 sampled pairs per predicate), sampled tuples above; every argument position of every predicate of arity 1-3 with seven integers whose product with a small element size wraps around (k*2^60+j, 2^32), the others unbound, an atom or a partial list; every string over a 31-symbol alphabet of significant bytes up to length 2, sampled longer ones (thorough: all of length 3), every truncation and random one-byte mutations of four valid texts, each as query text and as program text; every task in a fresh interpreter inside an isolated worker process with a memory limit, a step budget and a 15 s watchdog; non-trivial = the task does something other than fail or be rejected"
 	sum.write(outDir, start)
 }
 
